@@ -13,7 +13,7 @@ Require Import H4.gen.Gen_VG.
 Import ListNotations.
 Local Open Scope Z_scope.
 
-Definition pair := (Z * Z)%type.                      (* tag, ref *)
+Notation pair := (Z * Z)%type (only parsing). (* tag, ref *)
 Definition bytes := list Z.
 Definition pair_eqb (a b : pair) : bool := (fst a =? fst b) && (snd a =? snd b).
 Fixpoint bytes_eqb (a b : bytes) : bool :=
@@ -250,4 +250,38 @@ Definition step (s : state) (o : op) : state * res :=
            if zlen u <? start then (s, RFail) else let l := slice start n u in okv s (zlen l :: l))
   | OGetNext _ _ | OMsize _ | ORawVg _ => (s, RNoSpec)
   | OPutRaw _ _ => (s, RUnspec)
+  end.
+
+(* ---- the member list of one Vgroup as a list machine (used by theorem vg_members_refine_list) ------- *)
+Inductive mop :=
+| MAdd (t r : Z)            (* Vaddtagref: duplicates allowed *)
+| MInsert (t r : Z)         (* Vinsert: refuses a duplicate *)
+| MDel (t r : Z)            (* Vdeletetagref: first match *)
+| MCount                    (* Vntagrefs *)
+| MGetAll (n : Z)           (* Vgettagrefs *)
+| MGet (i : Z)              (* Vgettagref *)
+| MInq (t r : Z).           (* Vinqtagref *)
+Inductive mres := MNum (z : Z) | MFail | MPairs (l : list pair) | MBool (b : bool).
+
+(** [None]: outside the domain (arguments beyond 16 bits, or the 65535-member limit of property C20) *)
+Definition l_apply (l : list pair) (o : mop) : option (list pair * mres) :=
+  match o with
+  | MAdd t r => if u16 t && u16 r && (zlen l <? 65535) then Some (l ++ [(t, r)], MNum (zlen l + 1)) else None
+  | MInsert t r => if u16 t && u16 r && (zlen l <? 65535)
+                   then Some (if has_member (t, r) l then (l, MFail) else (l ++ [(t, r)], MNum (zlen l))) else None
+  | MDel t r => if u16 t && u16 r
+                then Some (match remove_first (t, r) l with Some l' => (l', MNum 0) | None => (l, MFail) end) else None
+  | MCount => Some (l, MNum (zlen l))
+  | MGetAll n => if 0 <=? n then Some (l, MPairs (firstn (Z.to_nat n) l)) else None
+  | MGet i => Some (l, match (if 0 <=? i then nth_error l (Z.to_nat i) else None) with
+                       | Some p => MPairs [p] | None => MFail end)
+  | MInq t r => if u16 t && u16 r then Some (l, MBool (has_member (t, r) l)) else None
+  end.
+Fixpoint l_run (l : list pair) (ops : list mop) : option (list pair * list mres) :=
+  match ops with
+  | [] => Some (l, [])
+  | o :: r => match l_apply l o with
+              | None => None
+              | Some (l1, x) => match l_run l1 r with None => None | Some (l2, xs) => Some (l2, x :: xs) end
+              end
   end.
